@@ -44,55 +44,54 @@ def mulLoop (a b : I64) : Nat → I64 → I64 → I64
   | 0, res, _ => res
   | fuel + 1, res, count => if count.slt b then mulLoop a b fuel (res + a) (count + 1) else res
 
-theorem mulLoop_inv (a b : I64) (hb : 0 ≤ b.toInt) : ∀ (fuel : Nat) (c : I64),
-    0 ≤ c.toInt → c.toInt ≤ b.toInt → (b.toInt - c.toInt).toNat ≤ fuel →
-    mulLoop a b fuel (a * c) c = a * b := by
+theorem slt_iff_of_nonneg (c b : I64) (hc : c.toNat < 2 ^ 63) (hb : b.toNat < 2 ^ 63) :
+    c.slt b = true ↔ c.toNat < b.toNat := by
+  simp only [BitVec.slt, decide_eq_true_eq]
+  rw [BitVec.toInt_eq_toNat_of_lt (by omega), BitVec.toInt_eq_toNat_of_lt (by omega)]
+  omega
+
+theorem mulLoop_inv (a b : I64) (hb : b.toNat < 2 ^ 63) : ∀ (fuel : Nat) (c : I64),
+    c.toNat ≤ b.toNat → b.toNat - c.toNat ≤ fuel → mulLoop a b fuel (a * c) c = a * b := by
   intro fuel
   induction fuel with
   | zero =>
-    intro c h0 hc hf
-    have : c = b := by
-      apply BitVec.eq_of_toInt_eq
-      omega
+    intro c hc hf
+    have : c = b := BitVec.eq_of_toNat_eq (by omega)
     simp [mulLoop, this]
   | succ fuel ih =>
-    intro c h0 hc hf
+    intro c hc hf
     simp only [mulLoop]
     by_cases hlt : c.slt b = true
     · simp only [hlt, if_true]
-      have hlt' : c.toInt < b.toInt := by simpa [BitVec.slt] using hlt
-      have hb63 : b.toInt < 2 ^ 63 := by have := BitVec.toInt_lt (x := b); omega
-      have hc1 : (c + 1).toInt = c.toInt + 1 := by
-        rw [BitVec.toInt_add]
-        simp only [BitVec.toInt_one, Nat.reduceLeDiff]
-        have : (2 : Int) ^ 63 = 9223372036854775808 := by norm_num
-        omega
+      have hlt' : c.toNat < b.toNat := (slt_iff_of_nonneg c b (by omega) hb).mp hlt
+      have hc1 : (c + 1).toNat = c.toNat + 1 := by bv_omega
       have hmul : a * c + a = a * (c + 1) := by
-        rw [BitVec.mul_add, BitVec.mul_one]
+        rw [BitVec.mul_add]; simp
       rw [hmul]
-      exact ih (c + 1) (by omega) (by omega) (by omega)
+      exact ih (c + 1) (by omega) (by omega)
     · simp only [hlt, Bool.false_eq_true, if_false]
-      have hge : ¬ c.toInt < b.toInt := by simpa [BitVec.slt] using hlt
-      have : c = b := by
-        apply BitVec.eq_of_toInt_eq
-        omega
+      have hge : ¬ c.toNat < b.toNat := fun h => hlt ((slt_iff_of_nonneg c b (by omega) hb).mpr h)
+      have : c = b := BitVec.eq_of_toNat_eq (by omega)
       rw [this]
 
-/-- For a non-negative multiplier the loop computes the product (wrap-around included). -/
-theorem mul_as_loop (a b : I64) (hb : 0 ≤ b.toInt) (fuel : Nat) (hf : b.toInt.toNat ≤ fuel) :
+/-- For a non-negative multiplier (`b.toNat < 2^63`: the sign bit is clear) the loop computes the
+product, wrap-around included, as soon as it is given `b` rounds. -/
+theorem mul_as_loop (a b : I64) (hb : b.toNat < 2 ^ 63) (fuel : Nat) (hf : b.toNat ≤ fuel) :
     mulLoop a b fuel 0 0 = a * b := by
-  have := mulLoop_inv a b hb fuel 0 (by simp) (by simpa using hb) (by simpa using hf)
+  have := mulLoop_inv a b hb fuel 0 (by simp) (by simpa using hf)
   simpa using this
 
 /-- For a negative multiplier it does not run at all: the variant computes 0 (finding R17:
-`(0 - 3) * 2` after the operands were swapped). -/
+`(0 - 3) * 2` after the operands were swapped in an earlier pass). -/
 theorem mul_as_loop_negative_counterexample :
-    ∀ fuel, mulLoop 2 (-3) fuel 0 0 = 0 ∧ (2 : I64) * (-3) ≠ 0 := by
-  intro fuel
+    (∀ fuel, mulLoop 2 (-3) fuel 0 0 = 0) ∧ (2 : I64) * (-3) ≠ 0 := by
   refine ⟨?_, by decide⟩
+  intro fuel
   cases fuel with
   | zero => rfl
-  | succ f => simp [mulLoop, BitVec.slt]
+  | succ f =>
+    have : (0 : I64).slt (-3) = false := by decide
+    simp [mulLoop, this]
 
 theorem not_not (b : Bool) : (!(!b)) = b := by cases b <;> rfl
 
@@ -108,16 +107,16 @@ theorem cmp_swap_ge (a b : Val) (sp : Span) : binOp .ge a b sp = binOp .le b a s
 
 /-- Integer addition and multiplication commute as operators of the language. -/
 theorem binOp_add_comm_int (x y : I64) (sp : Span) : binOp .add (.int x) (.int y) sp = binOp .add (.int y) (.int x) sp := by
-  simp [binOp, intOp, add_comm x y]
+  simp only [binOp, intOp]; rw [add_comm x y]
 theorem binOp_mul_comm_int (x y : I64) (sp : Span) : binOp .mul (.int x) (.int y) sp = binOp .mul (.int y) (.int x) sp := by
-  simp [binOp, intOp, mul_comm x y]
+  simp only [binOp, intOp]; rw [mul_comm x y]
 
 /-- `a - b` and `a + (-b)` as operators of the language, on integers. -/
 theorem binOp_sub_as_add_neg (x y : I64) (sp : Span) :
     binOp .sub (.int x) (.int y) sp = binOp .add (.int x) (.int (-y)) sp := by
-  simp [binOp, intOp, sub_as_add_neg x y]
+  simp only [binOp, intOp]; rw [sub_as_add_neg x y]
 theorem binOp_add_as_sub_neg (x y : I64) (sp : Span) :
     binOp .add (.int x) (.int y) sp = binOp .sub (.int x) (.int (-y)) sp := by
-  simp [binOp, intOp, add_as_sub_neg x y]
+  simp only [binOp, intOp]; rw [add_as_sub_neg x y]
 
 end HmsProofs.Lemmas.Fuzz
